@@ -491,3 +491,67 @@ pub fn foreign_opts(rng: &mut Rng, k: usize, quick: bool) -> ForeignOpts {
         multi_frame: rng.chance(1, 3),
     }
 }
+
+// ---------------------------------------------------------------------------------------------
+// hand-assembled archives with unusual but openable directory structures
+// ---------------------------------------------------------------------------------------------
+/// header + root + leaf section + data, back to back; metadata absent
+pub fn raw_archive(icomp: u8, root: &[SEntry], leaf_sec: &[u8], data: &[u8]) -> Vec<u8> {
+    let rootb = spec::codec_compress(icomp, &spec::encode_dir(root));
+    let h = SHeader {
+        root_off: 127, root_len: rootb.len() as u64, meta_off: 0, meta_len: 0,
+        leaf_off: 127 + rootb.len() as u64, leaf_len: leaf_sec.len() as u64,
+        data_off: 127 + (rootb.len() + leaf_sec.len()) as u64, data_len: data.len() as u64,
+        addressed: 0, entries: 0, contents: 0, clustered: false, icomp, tcomp: 1, ttype: 1,
+        minz: 0, maxz: 3, coords: [0; 6], cz: 0,
+    };
+    let mut f = spec::encode_header(&h);
+    f.extend_from_slice(&rootb);
+    f.extend_from_slice(leaf_sec);
+    f.extend_from_slice(data);
+    f
+}
+/// (name, bytes, ids worth probing, spec-valid?)
+pub fn odd_archives(rng: &mut Rng) -> Vec<(&'static str, Vec<u8>, Vec<u64>, bool)> {
+    let mut out = Vec::new();
+    let data: Vec<u8> = rng.bytes(400);
+    let t = |id: u64, run: u32, off: u64, len: u32| SEntry { id, off, len, run };
+    for icomp in [1u8, 2, 4] {
+        let leaf = |es: &[SEntry]| spec::codec_compress(icomp, &spec::encode_dir(es));
+        // 1. overlapping runs in one directory (later entries re-address ids of earlier runs)
+        out.push(("overlapping runs", raw_archive(icomp, &[t(0, 5, 0, 10), t(2, 1, 10, 7), t(3, 4, 17, 5), t(10, 2, 0, 10)], &[], &data), vec![0, 2, 3, 4, 6, 10], false));
+        // 2. a directory mixing leaf pointers and tile entries
+        let l1 = leaf(&[t(0, 1, 0, 4), t(1, 3, 4, 6), t(7, 1, 10, 2)]);
+        let l2 = leaf(&[t(30, 2, 50, 5), t(40, 1, 55, 9)]);
+        let mut ls = l1.clone();
+        ls.extend_from_slice(&l2);
+        let mixed = [SEntry { id: 0, off: 0, len: l1.len() as u32, run: 0 }, t(20, 1, 100, 8), t(21, 3, 108, 4), SEntry { id: 30, off: l1.len() as u64, len: l2.len() as u32, run: 0 }, t(50, 1, 120, 3)];
+        out.push(("mixed directory", raw_archive(icomp, &mixed, &ls, &data), vec![0, 7, 20, 21, 23, 30, 40, 50], true));
+        // 3. mixed directory whose later tile entry re-addresses an id inside an earlier leaf
+        let l3 = leaf(&[t(0, 1, 0, 4), t(5, 1, 4, 6)]);
+        let over = [SEntry { id: 0, off: 0, len: l3.len() as u32, run: 0 }, t(3, 4, 200, 8)];
+        out.push(("mixed directory with overlap", raw_archive(icomp, &over, &l3, &data), vec![0, 3, 5, 6], false));
+        // 4. a leaf pointer contiguous (in its own section) with the pointer before the tile entry that precedes it: its
+        //    offset is zero-coded after an entry of the other kind
+        let la = leaf(&[t(0, 1, 0, 4), t(1, 1, 4, 6)]);
+        let lb = leaf(&[t(60, 2, 30, 5)]);
+        let mut lsec = la.clone();
+        lsec.extend_from_slice(&[0xEE, 0xEE, 0xEE]); // a gap: the second leaf does not follow the first one
+        let lb_off = lsec.len() as u64;
+        lsec.extend_from_slice(&lb);
+        let tl: u32 = 5;
+        let toff = lb_off - u64::from(tl); // the tile entry ends (in ITS section) exactly where the second leaf starts (in its own)
+        let zc = [SEntry { id: 0, off: 0, len: la.len() as u32, run: 0 }, t(20, 1, toff, tl), SEntry { id: 60, off: lb_off, len: lb.len() as u32, run: 0 }];
+        out.push(("zero-coded pointer after a tile entry", raw_archive(icomp, &zc, &lsec, &data), vec![0, 1, 20, 60, 61], true));
+        // 5. the same mixing one level down
+        let inner = leaf(&[t(100, 1, 0, 3)]);
+        let mid_entries = [t(90, 2, 10, 4), SEntry { id: 100, off: 0, len: inner.len() as u32, run: 0 }, t(110, 1, 20, 6)];
+        let mid = leaf(&mid_entries);
+        let mut sec = inner.clone();
+        let mid_off = sec.len() as u64;
+        sec.extend_from_slice(&mid);
+        let top = [t(5, 1, 30, 2), SEntry { id: 90, off: mid_off, len: mid.len() as u32, run: 0 }, t(200, 1, 40, 5)];
+        out.push(("nested mixed directories", raw_archive(icomp, &top, &sec, &data), vec![5, 90, 91, 100, 110, 200], true));
+    }
+    out
+}
